@@ -53,6 +53,8 @@ def scenarios(tier):
     # descriptor number a pipe of the other just gave up (workers that ignore the stop signal are killed and closed in
     # one step, before the loop has seen their pipes end)
     out.append(Scenario('hist', n0=2, singleton=False, w=0.0, pat='stubborn', max_age=0, tier=tier, streams=True))
+    # workers that are gone only an instant after their SIGKILL
+    out.append(Scenario('hist', n0=2, singleton=False, w=0.0, pat='stubborn-lag', max_age=0, tier=tier))
     return out
 
 
